@@ -154,7 +154,7 @@ def exec_select(case):
         ints = [int(t) for t in Ts]
         ok = True
         for t in ints:
-            t_in = t if case['cseed'] % 3 else np.int64(t)
+            t_in = (t, np.int64(t), np.int32(t))[case['cseed'] % 3]
             r = [_call(lambda g=g: float(np.squeeze(g(T=t_in)))) for g in getters]
             st = {x[0] for x in r}
             scint.append('ok' if st == {'ok'} else 'raise' if st == {'raise'} else 'error')
@@ -165,7 +165,8 @@ def exec_select(case):
                 continue
             sci.append([to_dec2(x[1]) for x in r])
         if ok:
-            int_in = np.array(ints) if case['cseed'] % 4 < 2 else list(ints)
+            int_in = (np.array(ints), np.array(ints, dtype=np.int32), list(ints), np.array(ints, dtype=np.int16)
+                      if max(ints) < 32000 else np.array(ints, dtype=np.int32))[case['cseed'] % 4]
             res = [_call(lambda g=g: [float(x) for x in np.atleast_1d(g(T=int_in))]) for g in getters]
             if {r[0] for r in res} == {'ok'}:
                 arri = {'st': 'ok', 'v': [[to_dec2(x) for x in r[1]] for r in res]}
@@ -225,6 +226,19 @@ def exec_numeric(case):
             out.append({'ev': 'ghs', 'f': f, 'G': to_dec(float(np.squeeze(obj.get_GoRT(T=T)))),
                         'H': to_dec(float(np.squeeze(obj.get_HoRT(T=T)))),
                         'S': to_dec(float(np.squeeze(obj.get_SoR(T=T))))})
+            # the same relation under the entropy-of-the-elements option, dimensionless and in J/mol, for a
+            # scalar and for a one-element array T
+            rows = []
+            T_in = T if case['cseed'] % 2 else np.array([T])
+            for se in (False, True):
+                rows.append({'se': se,
+                             'G': to_dec(float(np.squeeze(obj.get_GoRT(T=T_in, S_elements=se)))),
+                             'H': to_dec(float(np.squeeze(obj.get_HoRT(T=T_in)))),
+                             'S': to_dec(float(np.squeeze(obj.get_SoR(T=T_in, S_elements=se)))),
+                             'Gd': to_dec(float(np.squeeze(obj.get_G(T=T_in, units='J/mol', S_elements=se)))),
+                             'Hd': to_dec(float(np.squeeze(obj.get_H(T=T_in, units='J/mol')))),
+                             'Sd': to_dec(float(np.squeeze(obj.get_S(T=T_in, units='J/mol/K', S_elements=se))))})
+            out.append({'ev': 'ghsopt', 'f': f, 'T': to_dec(T), 'rows': rows})
         else:
             h = H_STEP
             T = rnd.uniform(lo / (1 - 2 * h) * 1.0001, hi / (1 + 2 * h) * 0.9999)
